@@ -23,7 +23,7 @@ from elementpath.datatypes import AnyAtomicType, AnyURI, UntypedAtomic, Arithmet
 from elementpath.helpers import collapse_white_spaces
 from elementpath.sequences import xlist
 from elementpath.xpath_nodes import AttributeNode, ElementNode
-from elementpath.xpath_context import XPathSchemaContext
+from elementpath.xpath_context import XPathSchemaContext, ABSENT_FOCUS
 from elementpath.decoder import get_atomic_sequence
 
 from .base import XPathToken
@@ -489,11 +489,11 @@ class ContextItemToken(XPathToken):
         return self
 
     def evaluate(self, context: ta.ContextType = None) -> ta.ItemType:
-        if context is None:
+        if context is None or context.item is ABSENT_FOCUS:
             raise self.missing_context()
         return context.item
 
     def select(self, context: ta.ContextType = None) -> Iterator[ta.ItemType]:
-        if context is None:
+        if context is None or context.item is ABSENT_FOCUS:
             raise self.missing_context()
         yield from context.iter_self()
